@@ -35,6 +35,42 @@ def unit_order(text):
     return list(set(unit for utt in text for unit in utt.split()))
 
 
+def guarded(f, seconds=120):
+    """f() in a thread: "either returns ... or raises" - a call that gives no answer is reported, not waited for"""
+    import threading
+    box = []
+    th = threading.Thread(target=lambda: box.append(f()), daemon=True)
+    th.start()
+    th.join(seconds)
+    return box[0] if box else ('raise', 'HANG (no answer after %d s)' % seconds)
+
+
+def magnitude_probe(ck, rng, nunits):
+    """more distinct units than there are code points below the surrogates (3001 + 52295 = U+D800): the answer of the
+    implementation alone (the model's recoding is quadratic at this size; the thorough tier also runs it)"""
+    units = ['u%d' % i for i in range(nunits)]
+    rng.shuffle(units)
+    text = [' '.join(units[i:i + 25]) for i in range(0, nunits, 25)]
+    for f in os.listdir(CAP):
+        os.remove(os.path.join(CAP, f))
+    res = guarded(lambda: call_impl(lambda: list(dpseg.segment(list(text), nfolds=1, njobs=1, args='--randseed 3'))))
+    sent = []
+    for fn in os.listdir(CAP):
+        if fn.endswith('.in'):
+            sent.extend(open(os.path.join(CAP, fn), encoding='utf8').read().split('\n'))
+    chars = set(''.join(sent))
+    desc = {'text': '%d utterances of 25 units over %d distinct units u0..u%d (shuffled, seed %d)' % (len(text), nunits, nunits - 1, ck.seed),
+            'nfolds': 1, 'njobs': 1, 'family': 'distinct-units-magnitude'}
+    ck.case('magnitude:%d' % nunits, True, sample={'distinct_units': nunits, 'result': res[0] if res[0] == 'raise' else 'ok'})
+    ck.count('family:distinct-units-magnitude')
+    if res[0] == 'raise':
+        return None if res[1] in ('ValueError', 'RuntimeError') else (desc, 'dpseg.segment on %d distinct units: %s (only ValueError/RuntimeError allowed)' % (nunits, res[1]))
+    if any(ch.isspace() for ch in chars) or len(chars) != nunits:
+        return desc, 'the recoding of %d distinct units uses %d code points (whitespace among them: %s)' % (nunits, len(chars), any(ch.isspace() for ch in chars))
+    why = gens.aligned([l.split() for l in text], res[1])
+    return (desc, why) if why else None
+
+
 def segment_case(ck, text_units, nfolds, njobs, family, plan=None, raw_text=None, folds_only=False):
     text = raw_text if raw_text is not None else gens.lines(text_units)
     order = unit_order(text)
@@ -43,7 +79,7 @@ def segment_case(ck, text_units, nfolds, njobs, family, plan=None, raw_text=None
         os.remove(os.path.join(cap, f))
     json.dump(plan or {}, open(PLAN, 'w'))
     try:
-        res = call_impl(lambda: list(dpseg.segment(list(text), nfolds=nfolds, njobs=njobs, args='--randseed 3')))
+        res = guarded(lambda: call_impl(lambda: list(dpseg.segment(list(text), nfolds=nfolds, njobs=njobs, args='--randseed 3'))))
         # which outputs belong to which fold: recompute the folds with the model
         mf = run_model_batch([(303, [text2j(text), text2j(order), nfolds])])[0]
         outputs = []
@@ -206,6 +242,11 @@ def main():
             bad.append((desc, err))
         elif c:
             cases.append(c)
+    # 3c. more distinct units than code points below the surrogates
+    for nunits in ((53000, 70000) if ck.thorough else (53000,)):
+        r = magnitude_probe(ck, rng, nunits)
+        if r:
+            bad.append(r)
     # 4. malformed stream: the stand-in breaks its contract or fails; blank lines; too many folds
     for corrupt in ('drop', 'dup', 'char'):
         for k in range(6 if ck.thorough else 2):
